@@ -54,6 +54,7 @@ def gen_cases(tier, seed):
         for r in range(2 * k):
             cases.append(dict(
                 kind="loop", algo=algo, seed=int(rng.integers(1 << 20)),
+                resume=bool(r % 2),
                 delay=int(rng.choice([2, 3]) if r == 0 else rng.choice([1, 2, 3, 5])),
                 tau=float(rng.choice([0.005, 0.3, 1.0])),
                 gradient_steps=int(rng.choice([1, 1, 2])),
@@ -237,7 +238,8 @@ def run_loop(case):
     d, tau = case["delay"], case["tau"]
     ls = 9
     # continued runs: the cadence is a function of the absolute step count
-    G = int(np.random.default_rng(case["seed"]).choice([0, 0, 6, 13]))
+    G = int(np.random.default_rng(case["seed"]).choice([7, 13])) \
+        if case.get("resume") else 0
     cfg = dict(script=[[5, "T"], [8, "U"], [3, "T"]], seed=case["seed"],
                total_timesteps=case["total"] + G, global_step=G,
                learning_starts=ls, batch_size=4,
